@@ -115,7 +115,11 @@ def make_user_tree(tmp: Path, tag: str) -> Dict[str, str]:
         "pkgmod": d / "app" / "core.py",
         "submod": d / "app" / "sub" / "leaf.py",
         "json_named": d / "json.py",            # same stem as a stdlib module
+        "nsmod": d / "nsp" / "plugins" / "tool.py",   # PEP 420 namespace packages: no __init__.py anywhere on the way
+        "nsmixed": d / "app" / "nsinner" / "leaf2.py",   # a namespace level below a regular package
     }
+    (d / "nsp" / "plugins").mkdir(parents=True, exist_ok=True)
+    (d / "app" / "nsinner").mkdir(parents=True, exist_ok=True)
     for p in files.values():
         p.write_text("def f(a, b=1):\n    return a\n")
     (d / "app" / "__init__.py").write_text("")
@@ -247,7 +251,7 @@ def part_misc(ctx: Ctx) -> Result:
     lib = lib_files()
     sample = [f for f in lib if f.endswith(("json/decoder.py", "six.py", "yaml/__init__.py", "os.py", "_pytest/main.py", "click/core.py"))][:8] + list(user.values())
     sample += ["<string>", "<frozen importlib._bootstrap>", "<stdin>"]   # synthetic names are never admitted, allow-list or not
-    names = ["json", "six", "yaml", "app", "usermod", "core", "absent_name", Path(os.getcwd()).name or "verif", "<string>"]
+    names = ["json", "six", "yaml", "app", "usermod", "core", "absent_name", Path(os.getcwd()).name or "verif", "<string>", "nsp", "plugins", "nsinner"]
     old = os.environ.get("MONKEYTYPE_TRACE_MODULES")
     try:
         for k in (0, 1, 2, 3):
@@ -343,6 +347,7 @@ def outer_in_script(x):
     return inner_in_script(x)
 
 def main_entry():
+    M.use_internal_names()
     out = [main_helper(1), M.f1("a"), M.K().m(2), M.K.cm(3), M.K.sm(4), json.dumps([1])]
     out += [ScriptClass(1).method(2), ScriptClass.smethod(3), ScriptClass.cmethod(4), outer_in_script(5)]
     return out
@@ -353,6 +358,39 @@ RESULT = main_entry()
 MODULE = '''
 def f0(x):
     return x
+
+
+# functions that merely share a name with something inside MonkeyType are ordinary functions
+def trace(x):
+    return x
+
+
+def trace_calls(x):
+    return x
+
+
+def trace_types(x):
+    return x
+
+
+def handle_call(x):
+    return x
+
+
+class Router:
+    def trace(self, x):
+        return x
+
+    def log(self, x):
+        return x
+
+    def flush(self):
+        return None
+
+
+def use_internal_names():
+    r = Router()
+    return [trace(1), trace_calls(2), trace_types(3), handle_call(4), r.trace(5), r.log(6), r.flush()]
 
 def f1(x):
     return [x]
@@ -400,7 +438,7 @@ def part_run(ctx: Ctx) -> Result:
     mods = sorted(store.list_modules())
     rows = {(t.module, t.qualname) for m in mods for t in store.filter(m)}
     res.transitions += len(rows) + 1
-    want = {(modname, q) for q in ("f0", "f1", "f2", "K.m", "K.cm", "K.sm")}
+    want = {(modname, q) for q in ("f0", "f1", "f2", "K.m", "K.cm", "K.sm", "trace", "trace_calls", "trace_types", "handle_call", "Router.trace", "Router.log", "Router.flush", "use_internal_names")}
     case = {"part": "R"}
     if rc != 0:
         res.violate(Violation(ID, "run", "nonzero", case, f"run rc={rc} {err.getvalue()[:300]}"))
